@@ -12,10 +12,13 @@ using namespace FIX8;
 using namespace sim;
 
 static vh::Run *RR;
-enum Ev { E_PEER_APP, E_DELIVER, E_PEER_HB, E_FIX8_SEND, E_DROP_RECONNECT, E_N };
-static const char *EVN[] = { "peer-app", "deliver", "peer-hb", "fix8-send", "drop+reconnect" };
+// the last two events exist in the "lazy" configurations only: there the counterparty does not answer what fix8 writes at once
+// but when it gets round to reading it (peer-reads), and it may itself ask for a resend of everything fix8 sent (peer-resendreq:
+// it lost fix8's messages in the drop, or its store) — so requests of both sides cross and the same range is asked for twice
+enum Ev { E_PEER_APP, E_DELIVER, E_PEER_HB, E_FIX8_SEND, E_DROP_RECONNECT, E_PEER_RR, E_PEER_READS, E_N };
+static const char *EVN[] = { "peer-app", "deliver", "peer-hb", "fix8-send", "drop+reconnect", "peer-resendreq", "peer-reads" };
 
-struct Cfg { std::string name; WorldCfg w; };
+struct Cfg { std::string name; WorldCfg w; bool lazy = false; };
 
 struct Peer {	// conformant counterparty
 	struct Rec { char kind; std::string id, sendtime; };	// kind 'A' application, 'H' administrative
@@ -50,7 +53,7 @@ struct Peer {	// conformant counterparty
 
 struct Model {
 	Cfg cfg;
-	int nevents() const { return E_N; }
+	int nevents() const { return cfg.lazy ? (int)E_N : (int)E_PEER_RR; }
 	std::string evname(int e) const { return EVN[e]; }
 
 	bfs::Step run(const bfs::Hist& h, bool verbose)
@@ -62,13 +65,19 @@ struct Model {
 		Peer peer; peer.w = &w;
 		int nid = 0, fid = 0;
 		std::string fail_clause, fail_mode, fail_detail;
+		std::vector<std::string> held;	// lazy: written by fix8, not yet read by the peer
+		auto answer = [&](const std::vector<std::string>& out) {	// only ResendRequest and TestRequest oblige the peer to anything
+			if (!cfg.lazy) { peer.react(out); return; }
+			for (auto& m : out) if (tagval(m, 35) == "2" || tagval(m, 35) == "1") held.push_back(m);
+		};
+		auto peer_reads = [&]() { std::vector<std::string> h2; h2.swap(held); if (verbose) fprintf(stderr, "    peer reads %zu message(s)\n", h2.size()); peer.react(h2); };
 		auto logon_exchange = [&]() {
 			// the peer's Logon carries its current number (possibly above what fix8 expects)
 			peer.log[peer.next_out] = { 'H', "", peer.ts() };
 			std::string lg = peer.raw("A", peer.next_out, std::string("98=0") + SOH + "108=30" + SOH); ++peer.next_out; sim::advance_ms(1000);
 			w.feed(lg);
 			auto out = w.take_out(); if (verbose) for (auto& m : out) fprintf(stderr, "    OUT %s\n", vh::show(m).c_str());
-			peer.react(out);
+			answer(out);
 		};
 		auto check_alive = [&](const char *when) {
 			if (fail_clause.empty() && w.ses && w.ses->is_shutdown()) { fail_clause = "never-terminates-for-sequence-reason"; fail_mode = std::string("session-ended:") + when; fail_detail = std::string("state=") + Session::get_session_state_string((States::SessionStates)w.ses->st()) + " expected_in=" + std::to_string(w.ses->nr()) + " peer_next=" + std::to_string(peer.next_out); }
@@ -78,7 +87,7 @@ struct Model {
 			if (verbose) fprintf(stderr, "    IN  %s\n", vh::show(m).c_str());
 			w.feed(m);
 			auto out = w.take_out(); if (verbose) for (auto& x : out) fprintf(stderr, "    OUT %s\n", vh::show(x).c_str());
-			peer.react(out);
+			answer(out);
 		};
 		w.connect(); w.take_out();
 		logon_exchange();
@@ -91,16 +100,18 @@ struct Model {
 			case E_PEER_APP: peer.send_app("P" + std::to_string(++nid)); st.outcome = "queued"; break;
 			case E_PEER_HB: peer.send_admin("0", ""); st.outcome = "queued"; break;
 			case E_DELIVER: if (peer.inflight.empty()) { st.enabled = false; break; } deliver_one(); st.outcome = "delivered"; check_alive("deliver"); break;
-			case E_FIX8_SEND: w.ses->send(World::nos("F" + std::to_string(++fid))); peer.react(w.take_out()); st.outcome = "sent"; break;
+			case E_FIX8_SEND: w.ses->send(World::nos("F" + std::to_string(++fid))); answer(w.take_out()); st.outcome = "sent"; break;
 			case E_DROP_RECONNECT: {
 				if (wc.acceptor && wc.pk != P_FILE) { st.enabled = false; break; }
 				const bool lost = !peer.inflight.empty();
-				peer.inflight.clear();	// messages in flight are lost
+				peer.inflight.clear(); held.clear();	// messages in flight are lost, in both directions
 				w.disconnect(); w.connect(); w.take_out();
 				if ((long)peer.next_out > 0 && lost) logon_high = true;
 				logon_exchange(); st.outcome = lost ? "reconnected-after-loss" : "reconnected";
 				if (fail_clause.empty() && w.ses->is_shutdown()) { fail_clause = "never-terminates-for-sequence-reason"; fail_mode = "session-ended:logon-above-expected"; fail_detail = "peer Logon carried a number above the expected one"; }
 				break; }
+			case E_PEER_RR: peer.send_admin("2", std::string("7=1") + SOH + "16=0" + SOH); st.outcome = "queued"; break;
+			case E_PEER_READS: if (held.empty()) { st.enabled = false; break; } { bool rr = false; for (auto& m : held) if (tagval(m, 35) == "2") rr = true; st.outcome = rr ? "answers-resend-request" : "nothing-to-answer"; } peer_reads(); break;
 			}
 			if (!st.enabled) break;
 		}
@@ -109,14 +120,16 @@ struct Model {
 		std::string key = cfg.name + "|st" + std::to_string(w.ses->st()) + "|nr" + std::to_string(w.ses->nr()) + "|ns" + std::to_string(w.ses->ns()) + "|sd" + std::to_string(w.ses->is_shutdown()) + "|pn" + std::to_string(peer.next_out) + "|log";
 		for (auto& p : peer.log) key += p.second.kind;
 		key += "|fl"; for (auto& m : peer.inflight) key += tagval(m, 35) + tagval(m, 34) + (tagval(m, 43) == "Y" ? "d" : "") + ",";
+		key += "|hd"; for (auto& m : held) key += tagval(m, 35) + (tagval(m, 35) == "2" ? tagval(m, 7) + "-" + tagval(m, 16) : "") + ",";
 		key += "|dl"; { auto g = w.delivered(); std::set<std::string> d(g.begin(), g.end()); for (auto& x : d) key += x + ","; }
 		st.key = key;
 		// completion phase: drain, one heartbeat from the peer so that a tail gap is seen, drain again
 		if (fail_clause.empty()) {
 			if (verbose) fprintf(stderr, "  completion phase\n");
 			int guard = 0;
-			while (!peer.inflight.empty() && fail_clause.empty() && ++guard < 400) { deliver_one(); check_alive("completion"); }
-			if (fail_clause.empty()) { peer.send_admin("0", ""); guard = 0; while (!peer.inflight.empty() && fail_clause.empty() && ++guard < 400) { deliver_one(); check_alive("completion"); } }
+			auto drain = [&]() { while ((!peer.inflight.empty() || !held.empty()) && fail_clause.empty() && ++guard < 400) { if (peer.inflight.empty()) peer_reads(); else { deliver_one(); check_alive("completion"); } } };
+			drain();
+			if (fail_clause.empty()) { peer.send_admin("0", ""); guard = 0; drain(); }
 			if (fail_clause.empty() && !peer.inflight.empty()) { fail_clause = "recovery-terminates"; fail_mode = "endless-resend-exchange"; fail_detail = "still messages in flight after 400 steps"; }
 			if (fail_clause.empty()) {
 				auto g = w.delivered(); std::set<std::string> d(g.begin(), g.end());
@@ -148,6 +161,8 @@ int main(int argc, char **argv)
 	auto add = [&](const char *n, bool acc, PersistKind pk, bool ign) { Cfg c; c.name = n; c.w.acceptor = acc; c.w.pk = pk; c.w.ignore_logon_seq = ign; if (!acc) { c.w.us = "CLI"; c.w.them = "SRV"; } cfgs.push_back(c); };
 	std::string want = R.args.get("cfgs", "acc-file,ini-mem,acc-file-ignlogon,ini-mem-ignlogon");
 	add("acc-file", true, P_FILE, false); add("ini-mem", false, P_MEM, false); add("acc-file-ignlogon", true, P_FILE, true); add("ini-mem-ignlogon", false, P_MEM, true);
+	add("acc-file-lazy", true, P_FILE, false); cfgs.back().lazy = true; add("ini-mem-lazy", false, P_MEM, false); cfgs.back().lazy = true;
+	add("acc-file-ignlogon-lazy", true, P_FILE, true); cfgs.back().lazy = true; add("ini-mem-ignlogon-lazy", false, P_MEM, true); cfgs.back().lazy = true;
 	std::vector<Cfg> sel; for (auto& c : cfgs) if (("," + want + ",").find("," + c.name + ",") != std::string::npos) sel.push_back(c);
 	if (R.single) {
 		size_t sc = R.single_case.find(';'); std::string cn = R.single_case.substr(0, sc);
